@@ -337,6 +337,7 @@ type replayFile struct {
 	Kind     string               `json:"kind"`
 	Msg      string               `json:"msg"`
 	Inputs   []interp.ReplayInput `json:"inputs"`
+	Retries  int                  `json:"retries,omitempty"`
 }
 
 type nativeOut struct {
@@ -407,7 +408,29 @@ func lastLines(s string, n int) string {
 }
 
 // confirm replays a violation natively; true if the same failure shows.
+// confirm replays a counterexample natively. A counterexample that depends on
+// Go's randomised map iteration order is retried (the order is an input the
+// native run draws at random).
 func confirm(spec *Spec, specDir string, rf *replayFile, path string) (bool, string) {
+	tries := 1
+	if rf.Retries > 1 {
+		tries = rf.Retries
+	}
+	var ok bool
+	var why string
+	for i := 0; i < tries; i++ {
+		ok, why = confirmOnce(spec, specDir, rf, path)
+		if ok {
+			if tries > 1 {
+				why += fmt.Sprintf(" (native attempt %d of %d; depends on map iteration order)", i+1, tries)
+			}
+			return ok, why
+		}
+	}
+	return ok, why
+}
+
+func confirmOnce(spec *Spec, specDir string, rf *replayFile, path string) (bool, string) {
 	bin, err := buildNative(spec, specDir, rf.Pkg)
 	if err != nil {
 		return false, err.Error()
@@ -711,6 +734,9 @@ func cmdCheck(args []string) int {
 				continue
 			}
 			rf := &replayFile{Property: prop, Harness: hs.Func, Pkg: hs.Pkg, Thorough: tier == "thorough", Label: v.Label, Kind: v.Kind, Msg: v.Msg, Inputs: v.Inputs}
+			if v.MapOrder {
+				rf.Retries = 60
+			}
 			path := filepath.Join(replayDir, fmt.Sprintf("%s-%s-%d.json", hs.Func, sanitizeFile(v.Label), seenLabel[key]))
 			b, _ := json.MarshalIndent(rf, "", " ")
 			os.WriteFile(path, b, 0o644)
